@@ -35,6 +35,7 @@ structure Suppr where
   fileName : Str
   lineNumber : Int
   symbolName : Str
+  macroName : Str
   hash : Nat
   thisAndNextLine : Bool
   type : SType
@@ -52,10 +53,11 @@ abbrev State := List Suppr
 def Suppr.isWildcard (s : Suppr) : Bool := s.fileName.any (fun c => c == '?' || c == '*')
 def Suppr.isLocal (s : Suppr) : Bool := !s.fileName.isEmpty && !s.isWildcard
 
-/-- `Suppression::isSameParameters` -/
+/-- `Suppression::isSameParameters` (f569efa: also the type, the block lines and the macro name) -/
 def sameParams (a b : Suppr) : Bool :=
   a.errorId == b.errorId && a.fileName == b.fileName && a.lineNumber == b.lineNumber &&
-  a.symbolName == b.symbolName && a.hash == b.hash && a.thisAndNextLine == b.thisAndNextLine
+  a.symbolName == b.symbolName && a.hash == b.hash && a.thisAndNextLine == b.thisAndNextLine &&
+  a.type == b.type && a.lineBegin == b.lineBegin && a.lineEnd == b.lineEnd && a.macroName == b.macroName
 
 def isAlnum (c : Char) : Bool :=
   ('0' ≤ c && c ≤ '9') || ('a' ≤ c && c ≤ 'z') || ('A' ≤ c && c ≤ 'Z')
@@ -178,11 +180,11 @@ def message (s : Suppr) : Bool × Str × Str × Int × Nat :=
 /- ---- executors ------------------------------------------------------------------------------------------- -/
 
 /-- what survives `suppressionToString` → pipe → `SuppressionList::parseLine` + the fields set by handleRead.
-    (`toString` prints id[:file[:line]] and the symbol; hash, thisAndNextLine, type, lineBegin/End are not transferred) -/
+    (`toString` prints id[:file[:line]] and the symbol; hash, thisAndNextLine, type, lineBegin/End, macroName are not transferred) -/
 def wire (s : Suppr) : Suppr :=
   { errorId := s.errorId, fileName := s.fileName,
     lineNumber := if s.fileName.isEmpty then noLine else s.lineNumber,
-    symbolName := s.symbolName, hash := 0, thisAndNextLine := false, type := .unique, lineBegin := noLine, lineEnd := noLine,
+    symbolName := s.symbolName, macroName := [], hash := 0, thisAndNextLine := false, type := .unique, lineBegin := noLine, lineEnd := noLine,
     column := s.column, isInline := s.isInline, isPolyspace := s.isPolyspace, checked := s.checked, matched := s.matched }
 
 /-- `PipeWriter::writeSuppr`: inline suppressions always, the others only when checked.
